@@ -11,20 +11,23 @@ import common as C
 
 PID = "C02"
 DRIVER = [("C02", "TfPwaV.Model.Align", "Align.handle"), ("C02a", "TfPwaV.Gen.AlignF", "AlignF.handle"),
-          ("C02w", "TfPwaV.Gen.SL2CF", "SL2CF.handle")]
-LEAN_TARGETS = ["TfPwaV.Props.C02", "TfPwaV.Props.C02b", "TfPwaV.Props.C02c", "TfPwaV.Props.C02d", "TfPwaV.Gen.AlignF", "TfPwaV.Gen.SU2F",
-                "TfPwaV.Gen.SL2CF"]
-PROP_MODULES = ["TfPwaV.Props.C02", "TfPwaV.Props.C02b", "TfPwaV.Props.C02c", "TfPwaV.Props.C02d"]
+          ("C02w", "TfPwaV.Gen.SL2CF", "SL2CF.handle"), ("C02r", "TfPwaV.Gen.RouteRestF", "RouteRestF.handle")]
+LEAN_TARGETS = ["TfPwaV.Props.C02", "TfPwaV.Props.C02b", "TfPwaV.Props.C02c", "TfPwaV.Props.C02d", "TfPwaV.Props.C02e", "TfPwaV.Gen.AlignF",
+                "TfPwaV.Gen.SU2F", "TfPwaV.Gen.SL2CF", "TfPwaV.Gen.RouteRestF"]
+PROP_MODULES = ["TfPwaV.Props.C02", "TfPwaV.Props.C02b", "TfPwaV.Props.C02c", "TfPwaV.Props.C02d", "TfPwaV.Props.C02e"]
 ALL_MODULES = ["TfPwaV.Model.Align", "TfPwaV.Proofs.Align", "TfPwaV.Proofs.AlignD", "TfPwaV.Proofs.SU2", "TfPwaV.Proofs.UnitaryMix",
                "TfPwaV.Props.C02", "TfPwaV.Props.C02b", "TfPwaV.Props.C02c", "TfPwaV.Props.C02d", "TfPwaV.Proofs.SL2C", "TfPwaV.Proofs.Kin",
+               "TfPwaV.Props.C02e", "TfPwaV.Proofs.RouteRest", "TfPwaV.Proofs.RouteRestTree", "TfPwaV.Proofs.CascadeTree", "TfPwaV.Proofs.Cascade",
+               "TfPwaV.Proofs.CascadeAngle", "TfPwaV.Proofs.Angle", "TfPwaV.Props.C11", "TfPwaV.Props.C11c",
                "TfPwaV.Props.C12b", "TfPwaV.Props.C12d",
                "TfPwaV.Props.C01", "TfPwaV.Props.C01b", "TfPwaV.Proofs.FrameAlg", "TfPwaV.Proofs.DHom", "TfPwaV.Proofs.ZHom"]
 ASSUMPTIONS = [
-    "kinematic hypothesis, REDUCED (Props/C02d.lean): `IsSU2 G` / `IsSU2 R_k` of convention_invariant (Props/C02c.lean) are no longer assumed. They are PROVED (changeRef_isSU2, alignR_isSU2, via rest_stabiliser / two_routes_rotation and the spinor map herm p = [[E+pz, -px-i py], [-px+i py, E-pz]], X -> A X A^dagger) from the named hypothesis `RouteToRest`: for every chain, the Lorentz transformation composed from the (alpha_i, beta_i, omega_i) that cal_helicity_angle fed to Boost_z*Rotation_y*Rotation_z along the decay path brings the final particle's momentum (coordinates in the top particle's frame shared by all chains) to rest, and the mass is non-zero. `RouteToRest` itself follows (routeToRest_of_lastVertex, helicity_vertex_to_rest, polar_of_momentum, omega_of_momentum) from `LastVertexTracks`: the angles and rapidity of the last vertex are those of the momentum the earlier vertices produce. NOT proved: that the helicity-frame momentum the code obtains by nested LorentzVector.rest_vector boosts and axis bookkeeping (cal_chain_boost, angle_zx_z_getx; C11d cascade_boost_undo / cascade_angles) equals the image of the top-frame momentum under the earlier vertices of the route. Validated on every run: (b_matrix*r_matrix) herm(q) (..)^dagger = m*1 for every chain, final particle and event with the matrices captured from the real cal_angle and q from a numpy oracle, to 1e-9*E*max|M_ij|^2 (observed 2e-15), and unitarity of every element handed to get_euler_angle (observed 1.4e-15)",
+    "kinematic hypothesis, DISCHARGED (Props/C02e.lean): `RouteToRest` of Props/C02d.lean (the Lorentz transformation composed from the (alpha_i, beta_i, omega_i) of a route brings the particle's top-frame momentum to rest) is now PROVED (route_to_rest_of_cascade) for every event (any binary decay tree, any final four-momenta, any input frame, any base axes), for every decay path, from the model of the code that produces those numbers: templates/Cascade.lean.in (infer_momentum, add_mass, cal_chain_boost = nested LorentzVector.rest_vector, the axis propagation set_z[j] = vect(rest_p[j]), set_x[j] = x2 of angle_zx_z_getx, the alpha range shift) + templates/RouteRest.lean.in (stepTree: the (alpha, beta, omega = LorentzVector.omega(rest_p[j])) cal_helicity_angle records for both daughters of every decay; topCoords: the frame all chains start from; rule2Step: the angles of aligned_angle_ref_rule2). Hypotheses = the code's own guards along the chain (`Guards`, `TopOK`): every helicity-frame momentum has positive energy and is time-like (massive particles; LorentzVector.gamma resets beta^2 >= 1 otherwise), no cross_unit call is in its degenerate branch (norm < 1e-14), every DECAYING daughter is in the regular branch of LorentzVector.boost (beta^2 > 1e-14); the excluded branches are not covered by a theorem. What ties this model to the code is a correspondence, not a proof: on every run the Float instance of the same text computes, from the final momenta alone, the steps of every decay path of every captured chain and they are compared with the angles cal_helicity_angle stored and the rapidity read off b_matrix (1e-6; observed 1e-14), topCoords with an independent numpy oracle, rule2R(rule2Step) with the captured rule-2 r_matrix; the older run-time check of RouteToRest on the captured matrices ((b_matrix*r_matrix) herm(q) (..)^dagger = m*1, observed 2e-15) is kept and now validates the tie model <-> code rather than a hypothesis",
+    "3-body vertices (angle_zx_zzz_getx) are outside the cascade/route model (chains containing one are counted as skipped by the model correspondence; the captured-matrix check still covers them); the non-vacuity witnesses of Guards/ChainOf in Props/C02e.lean are a depth-1 event (A -> a b at rest) and a depth-2 event (A -> R c, R -> a b with R in flight, beta = 3/5; route of two vertices); deeper chains are seen on the real events of every run (model residual routeL(steps)(q) = (m,0,0,0) to 2e-15 on routes of depth 2 and 3)",
     "massless final particles (m = 0) are excluded from rest_stabiliser (rest_stabiliser_massless_fails shows the hypothesis cannot be dropped); the regular branch tanh^2(omega) > 1e-14 of LorentzVector.boost is a hypothesis of boost_sign_tie; omega_of_momentum assumes a time-like momentum of positive energy (LorentzVector.gamma resets beta^2 >= 1 to 0 otherwise)",
     "the spinor parametrisation herm is a choice: the mirror image (E - p.sigma, i.e. A -> (A^dagger)^-1) would describe a tree in which the sign of the rapidity is flipped in EVERY Boost_z consistently; such a tree still satisfies the property but fails the kinematic correspondence (and the C12 correspondence of Boost_z) and is reported as a broken obligation, not as a failing input",
     "the matrix contracted by DecayChain.get_amp is modelled as codeD N R = D_matrix_conj(get_euler_angle(R)) built from the exact small-d table model (C12: compared with small_d_weight on every run) and applied to the chain-frame helicity index (alignD_einsum); its anti-multiplicativity on SU(2) and unitarity are PROVED for 2j <= 8 (codeD_mul from euler_roundtrip + DConj_compose/D_hom_su2, codeD_unitary from D_conj_unitary) and re-checked numerically on the implementation for 2j <= 4 (correspond_dhom); the bound 2j <= 8 comes from the kernel-checked table tie of C12",
-    "random_z / center_mass equivalences (a common rotation / the first pure boost of the whole event) are validated by the search only; they are instances of C01 frame covariance",
+    "random_z / center_mass: route_to_rest_of_cascade holds for arbitrary base axes and arbitrary input events, so each setting separately has rotation-valued alignment elements (route_to_rest_random_z, route_to_rest_center_mass); that the DENSITY is the same ACROSS these settings (a common rotation / the first pure boost of the whole event) is validated by the search only; it is an instance of C01 frame covariance",
     "density comparison tolerance 1e-6*(max(d1,d2)+mean(d)): SU2M.get_euler_angle takes beta = acos(Re(x00 x11 + x01 x10)), whose forward error at beta -> 0 is sqrt(2 ulp) ~ 2e-8 (observed density differences up to 1.3e-8 between equivalent configurations on the unchanged tree, median 1e-10); any O(1) convention error is > 1e-3 on most events",
     "matrix correspondence tolerance 1e-9 relative to the largest entry (products of at most 12 complex 2x2 factors with entries up to exp(omega/2))",
 ]
@@ -1010,6 +1013,7 @@ def _herm_np(q):
 
 
 KIN_TOL = 1e-9
+STEP_TOL = 1e-6   # (alpha, beta, omega) of the cascade model vs the implementation: atan2 / acosh of the same quantities
 
 
 def correspond_kinematic(ctx, res):
@@ -1067,6 +1071,35 @@ def correspond_kinematic(ctx, res):
                 for d in ch:
                     for o in d.outs:
                         prod[o] = d
+                # the cascade model of Props/C02e.lean on the SAME event: steps (alpha, beta, omega) of every decay path
+                # computed by the Lean Float instance from the final momenta alone (templates/RouteRest.lean.in)
+                if all(len(d.outs) == 2 for d in ch):
+                    dec_of = {d.core: d for d in ch}
+                    for ev in range(nev):
+                        leaves_ev = []
+
+                        def enc(x):
+                            if x in dec_of:
+                                return [1.0] + enc(dec_of[x].outs[0]) + enc(dec_of[x].outs[1])
+                            leaves_ev.append(x)
+                            return [0.0] + [float(v) for v in np.asarray(pd[str(x)], dtype=float)[ev]]
+                        toks = enc(dg.top)
+                        want = []
+                        for o in leaves_ev:
+                            pth, x = [], o
+                            while x in prod:
+                                pth.append((prod[x], x))
+                                x = prod[x].core
+                            cs = []
+                            for d, y in pth[::-1]:
+                                cs.append([float(np.asarray(r[d][y]["ang"][k]).reshape(-1)[ev]) for k in ("alpha", "beta")]
+                                          + [2.0 * math.log(_m8(r["b_matrix"][y], ev)[6])])
+                            want.append((str(o), cs, [float(v) for v in qs[o][ev]], float(ms[o][ev])))
+                        lines.append("C02r steps " + " ".join(C.f2h(v) for v in [1.0, 1.0, 0.0, 0.0] + toks))
+                        checks.append(("msteps", want, "%s: chain %s event %d" % (where, ch, ev),
+                                       {"cfg": cfg, "align_ref": align_ref, "p": jsonable_p({k: np.asarray(v)[ev:ev + 1] for k, v in pd.items()})}))
+                else:
+                    stat["three_body_chains_skipped"] = stat.get("three_body_chains_skipped", 0) + 1
                 for o in dg.outs:
                     if o not in r["r_matrix"]:
                         continue
@@ -1106,6 +1139,8 @@ def correspond_kinematic(ctx, res):
                         checks.append(("act", (M, q, float(ms[o][ev]), sc), "%s: rule-2 reference of particle %s event %d" % (where, o, ev),
                                        {"cfg": cfg, "align_ref": align_ref, "p": jsonable_p({k: np.asarray(v)[ev:ev + 1] for k, v in pd.items()})}))
                         stat["rule2"] += 1
+                        lines.append("C02r rule2 " + " ".join(C.f2h(float(v)) for v in [1.0] + list(p_top[ev]) + list(np.asarray(pd[str(o)], dtype=float)[ev])))
+                        checks.append(("mrule2", r8, "%s: rule-2 reference of particle %s event %d (model rule2Step)" % (where, o, ev), None))
             for Rm in cap["R"]:
                 for ev in range(nev):
                     g8 = _m8(Rm, ev)
@@ -1121,7 +1156,8 @@ def correspond_kinematic(ctx, res):
                     checks.append(("omega", float(om[ev]), "%s: omega of %s event %d" % (where, o, ev), None))
                     stat["omega"] += 1
     out = ctx.model.query(lines)
-    nb = {"act": 0, "route": 0, "su2": 0, "omega": 0, "model": 0}
+    nb = {"act": 0, "route": 0, "su2": 0, "omega": 0, "model": 0, "msteps": 0, "mrule2": 0}
+    stat.update({"m_routes": 0, "m_deep": 0, "m_worst_step": 0.0, "m_worst_rest": 0.0, "m_worst_q": 0.0, "m_rule2": 0})
 
     def report(kind, what, detail):
         nb[kind] += 1
@@ -1132,6 +1168,46 @@ def correspond_kinematic(ctx, res):
             res.broke("model driver bad-op (SL2C)", l[:200])
             return 0
         mv = np.array([C.h2f(x) for x in o.split()])
+        if kind == "msteps":
+            k = 0
+            for (pname, cs, q, m) in want:
+                n = int(mv[k]) if k < len(mv) else -1
+                if n != len(cs):
+                    report("msteps", "correspondence cascade model (RouteRest.stepTree): number of vertices on the decay path differs from cal_helicity_angle",
+                           dict(extra, case=what, particle=pname, model=n, impl=len(cs)))
+                    break
+                st = mv[k + 1:k + 1 + 3 * n].reshape(n, 3)
+                e, qm = mv[k + 1 + 3 * n:k + 5 + 3 * n], mv[k + 5 + 3 * n:k + 9 + 3 * n]
+                k += 9 + 3 * n
+                cs = np.array(cs)
+                da = np.abs((st[:, 0] - cs[:, 0] + math.pi) % (2 * math.pi) - math.pi)
+                dstep = float(max(np.max(da), np.max(np.abs(st[:, 1] - cs[:, 1])), np.max(np.abs(st[:, 2] - cs[:, 2]) / np.maximum(1.0, np.abs(cs[:, 2])))))
+                stat["m_worst_step"] = max(stat["m_worst_step"], dstep)
+                if not dstep <= STEP_TOL:
+                    report("msteps", "correspondence cascade model (RouteRest.stepTree): (alpha, beta, omega) along a decay path differ from cal_helicity_angle / Boost_z_from_p",
+                           dict(extra, case=what, particle=pname, model=st.tolist(), impl=cs.tolist(), diff=dstep))
+                sc = max(1.0, math.exp(float(np.sum(np.abs(cs[:, 2]))))) * q[0]
+                dq = float(np.max(np.abs(qm - np.array(q))) / q[0])
+                stat["m_worst_q"] = max(stat["m_worst_q"], dq)
+                if not dq <= 1e-7:
+                    report("msteps", "correspondence RouteRest.topCoords vs numpy oracle of the top-frame momentum",
+                           dict(extra, case=what, particle=pname, model=qm.tolist(), oracle=q))
+                er = float(np.max(np.abs(e - np.array([m, 0, 0, 0]))) / sc)
+                stat["m_worst_rest"] = max(stat["m_worst_rest"], er)
+                if not er <= KIN_TOL * 100:
+                    report("msteps", "route_to_rest_of_cascade fails numerically: routeL(model steps)(topCoords p) != (m,0,0,0)",
+                           dict(extra, case=what, particle=pname, got=e.tolist(), mass=m, rel_err=er))
+                stat["m_routes"] += 1
+                stat["m_deep"] += n >= 2
+            continue
+        if kind == "mrule2":
+            r8 = np.array(want)
+            err = float(np.max(np.abs(mv[3:11] - r8)) / max(1.0, float(np.max(np.abs(r8)))))
+            stat["m_rule2"] += 1
+            if not err <= 1e-7:
+                report("mrule2", "correspondence rule2Step/rule2R (model of aligned_angle_ref_rule2) vs captured reference r_matrix",
+                       {"case": what, "model_steps": mv[:3].tolist(), "model": mv[3:11].tolist(), "impl": r8.tolist(), "err": err})
+            continue
         if kind == "act":
             M, q, m, sc = want
             X = M @ _herm_np(q) @ M.conj().T
@@ -1174,7 +1250,14 @@ def correspond_kinematic(ctx, res):
     res.coverage["kinematic_worst_unitarity_residual_rel"] = stat["worst_G"]
     res.coverage["kinematic_structures"] = [n for n, _ in structs]
     res.coverage["kinematic_tolerance"] = KIN_TOL
-    return stat["routes"] * 2 + stat["G"] + stat["omega"]
+    res.coverage["cascade_model_routes_compared"] = stat["m_routes"]
+    res.coverage["cascade_model_routes_depth_ge_2"] = int(stat["m_deep"])
+    res.coverage["cascade_model_worst_step_diff"] = stat["m_worst_step"]
+    res.coverage["cascade_model_worst_rest_residual_rel"] = stat["m_worst_rest"]
+    res.coverage["cascade_model_worst_topcoords_diff_rel"] = stat["m_worst_q"]
+    res.coverage["cascade_model_rule2_references_compared"] = stat["m_rule2"]
+    res.coverage["cascade_model_three_body_chains_skipped"] = stat.get("three_body_chains_skipped", 0)
+    return stat["routes"] * 2 + stat["G"] + stat["omega"] + stat["m_routes"] + stat["m_rule2"]
 
 
 def correspond(ctx, res):
@@ -1223,7 +1306,7 @@ def replay(ctx, payload):
 
 
 MANIFEST = {
-    "text": "Lean theorems: (i) SU2M algebra over real pairs (imported from C12b: associativity, det multiplicative, inv two-sided for det 1, det of Rz/Ry/Bz = 1) extended to the bookkeeping of cal_angle: every r_matrix / b_matrix / rule-2 reference built by cal_helicity_angle has det 1 for every decay path of any depth; (ii) align_cocycle: for any two references the alignment elements satisfy R'_k = G R_k with one G for all chains k (and G = the alignment element of the old reference chain w.r.t. the new one); (iii) ref_choice_total: the modelled aligned_angle_ref_rule1 assigns to every final particle exactly one reference chain = first chain producing it from the top particle, else chain 0, for EVERY ordered chain list; reference chains never get an aligned angle, all others do; (iv) permutation invariance of the coherent sum for lists and convention_invariant (Props/C02c.lean): for every final-state spin 2j <= 8, with the code's own alignment matrix D_matrix_conj(get_euler_angle(R_k)) (anti-multiplicativity on SU(2) and unitarity proved from euler_roundtrip, D_hom_su2, D_conj_unitary), arbitrary spectator indices, one or two aligned particles with independent references, the helicity-summed density is the same for both references, given that the alignment elements are in SU(2); (v) NEW, Props/C02d.lean (spinor map, all real angles / rapidities / four-vectors): boostZ_acts, rotZ_acts, rotY_acts (what SU2M.Boost_z / Rotation_z / Rotation_y do to a four-vector: boost with velocity -tanh(omega) along z, azimuth - alpha, polar angle - beta), boost_sign_tie (Boost_z(omega) = LorentzVector.rest_vector of a momentum along +z, regular branch), omega_of_momentum (acosh(LorentzVector.gamma(p)) has m cosh = E, m sinh = |p|), helicity_vertex_to_rest, rest_stabiliser (det A = 1, A (m 1) A^dagger = m 1, m != 0 => A in SU(2); massless counterexample), two_routes_rotation, route_matches_code (b_matrix*r_matrix accumulated as r*b[core]*r[core] is the ordered product of the per-vertex matrices, any depth), route_acts (it acts as the composed per-vertex Lorentz transformation), changeRef_isSU2 / alignR_isSU2 (G and every R_k ARE rotations) and convention_invariant_routes / _two_routes / order_and_reference_invariant_routes / convention_invariant_rule2_routes: the density is the same for two reference chains, and for rule 1 vs rule 2 (align_ref = center_mass), WITHOUT any IsSU2 hypothesis, under the named kinematic hypothesis RouteToRest (each chain's route was built from the momentum it is applied to; implied by LastVertexTracks) and m != 0.",
-    "note": "Validated, not proved: RouteToRest itself, i.e. that the helicity-frame momenta cal_chain_boost / cal_helicity_angle compute by nested rest_vector boosts and axis bookkeeping are the images of the top-frame momentum under the route (checked on every run on the matrices captured from the real cal_angle: (b*r) herm(q) (b*r)^dagger = m*1 per chain / final particle / event with q from an independent numpy oracle, routeL(alpha_i, beta_i, omega_i)(q) = (m,0,0,0), per-vertex product = captured b*r, unitarity of every element handed to get_euler_angle; 1e-9 relative to E*max|M_ij|^2, observed 2e-15); random_z / center_mass equivalences (C01 covariance); 3-body vertices (angle_zx_zzz_getx) are outside the route model. The discrete model is compared exactly with the real aligned_angle_ref_rule1 on seeded chain lists (real DecayChain objects, token payloads) and with the keys of the real cal_angle output; the Float instance of the matrix bookkeeping is compared with the matrices the real cal_angle builds on real events (captured at get_euler_angle). Search = the property itself: pairs of ConfigLoader instances from permuted chain lists / inner alternatives / decay-section key order and re-optioned data sections (align_ref, random_z, center_mass, only_left_angle), parameters by name, same p4 in the parent rest frame and in a boosted frame, rel 1e-6 (the implementation's own acos forward error is 2e-8).",
-    "technique": "Lean 4 proof (2x2 complex matrix algebra over real pairs, spinor map SL(2,C) -> Lorentz group, list induction, unitary mixing) + differential correspondence (incl. the kinematic hypothesis on captured matrices) + metamorphic search on the implementation",
+    "text": "Lean theorems: (i) SU2M algebra over real pairs (imported from C12b: associativity, det multiplicative, inv two-sided for det 1, det of Rz/Ry/Bz = 1) extended to the bookkeeping of cal_angle: every r_matrix / b_matrix / rule-2 reference built by cal_helicity_angle has det 1 for every decay path of any depth; (ii) align_cocycle: for any two references the alignment elements satisfy R'_k = G R_k with one G for all chains k (and G = the alignment element of the old reference chain w.r.t. the new one); (iii) ref_choice_total: the modelled aligned_angle_ref_rule1 assigns to every final particle exactly one reference chain = first chain producing it from the top particle, else chain 0, for EVERY ordered chain list; reference chains never get an aligned angle, all others do; (iv) permutation invariance of the coherent sum for lists and convention_invariant (Props/C02c.lean): for every final-state spin 2j <= 8, with the code's own alignment matrix D_matrix_conj(get_euler_angle(R_k)) (anti-multiplicativity on SU(2) and unitarity proved from euler_roundtrip, D_hom_su2, D_conj_unitary), arbitrary spectator indices, one or two aligned particles with independent references, the helicity-summed density is the same for both references, given that the alignment elements are in SU(2); (v) NEW, Props/C02d.lean (spinor map, all real angles / rapidities / four-vectors): boostZ_acts, rotZ_acts, rotY_acts (what SU2M.Boost_z / Rotation_z / Rotation_y do to a four-vector: boost with velocity -tanh(omega) along z, azimuth - alpha, polar angle - beta), boost_sign_tie (Boost_z(omega) = LorentzVector.rest_vector of a momentum along +z, regular branch), omega_of_momentum (acosh(LorentzVector.gamma(p)) has m cosh = E, m sinh = |p|), helicity_vertex_to_rest, rest_stabiliser (det A = 1, A (m 1) A^dagger = m 1, m != 0 => A in SU(2); massless counterexample), two_routes_rotation, route_matches_code (b_matrix*r_matrix accumulated as r*b[core]*r[core] is the ordered product of the per-vertex matrices, any depth), route_acts (it acts as the composed per-vertex Lorentz transformation), changeRef_isSU2 / alignR_isSU2 (G and every R_k ARE rotations) and convention_invariant_routes / _two_routes / order_and_reference_invariant_routes / convention_invariant_rule2_routes: the density is the same for two reference chains, and for rule 1 vs rule 2 (align_ref = center_mass), WITHOUT any IsSU2 hypothesis, under the named kinematic hypothesis RouteToRest (each chain's route was built from the momentum it is applied to; implied by LastVertexTracks) and m != 0. (vi) NEW, Props/C02e.lean: RouteToRest is DISCHARGED from the cascade model (templates/Cascade.lean.in + templates/RouteRest.lean.in): route_step_tracks (one vertex, any mother frame with the un-normalised set_z, any four-vector passing the guards, any bias: the recorded (alpha, beta, omega) satisfy LastVertexTracks and Boost_z*Rotation_y*Rotation_z maps herm(coords r) to m*1), route_step_is_rest_vector (the recorded step IS rest_vector followed by the passage to the daughter's axes (set_x, set_z), for every four-vector: the frame bookkeeping over the levels), route_to_rest_of_cascade (structural induction over ANY binary decay tree, ANY decay path, any momenta, any base axes: RouteToRest (route of the path) (top-frame momentum) sqrt(q.q), and the mass is > 0), convention_invariant_event / _two_event / order_and_reference_invariant_event / convention_invariant_rule2_event (the C02d statements with hypotheses on the EVENT only: chains of one event = trees over the same total momentum and base axes passing the code's guards; rule 2 built from the modelled angles of aligned_angle_ref_rule2 via rule2_polar), route_to_rest_random_z, route_to_rest_center_mass.",
+    "note": "No named kinematic hypothesis is left: RouteToRest is proved from the cascade model under the code's guards (massive, non-degenerate cross_unit, regular boost branch). Validated, not proved: that the cascade model IS the code (correspondence on every run: the Float instance computes the (alpha, beta, omega) of every decay path from the final momenta alone and is compared with what cal_helicity_angle stored / b_matrix encodes, 1e-6, observed 1e-14; topCoords vs a numpy oracle; rule2R(rule2Step) vs the captured rule-2 reference), the guard branches themselves (near-degenerate configurations), 3-body vertices, and the equality of the density ACROSS random_z / center_mass settings (search). The older check of RouteToRest on captured matrices is kept as a tie model <-> code (on the matrices captured from the real cal_angle: (b*r) herm(q) (b*r)^dagger = m*1 per chain / final particle / event with q from an independent numpy oracle, routeL(alpha_i, beta_i, omega_i)(q) = (m,0,0,0), per-vertex product = captured b*r, unitarity of every element handed to get_euler_angle; 1e-9 relative to E*max|M_ij|^2, observed 2e-15). The discrete model is compared exactly with the real aligned_angle_ref_rule1 on seeded chain lists (real DecayChain objects, token payloads) and with the keys of the real cal_angle output; the Float instance of the matrix bookkeeping is compared with the matrices the real cal_angle builds on real events (captured at get_euler_angle). Search = the property itself: pairs of ConfigLoader instances from permuted chain lists / inner alternatives / decay-section key order and re-optioned data sections (align_ref, random_z, center_mass, only_left_angle), parameters by name, same p4 in the parent rest frame and in a boosted frame, rel 1e-6 (the implementation's own acos forward error is 2e-8).",
+    "technique": "Lean 4 proof (2x2 complex matrix algebra over real pairs, spinor map SL(2,C) -> Lorentz group, list induction, structural induction over decay trees with a frame/boost invariant, unitary mixing) + differential correspondence (incl. the kinematic hypothesis on captured matrices) + metamorphic search on the implementation",
 }
